@@ -50,6 +50,12 @@ namespace c09
     concept Struct = requires(T &t) { t.tie(); };
     template <class T>
     concept Scalar = std::is_arithmetic_v<T>;
+    // user types whose reflect()/serialize_reflect() is conditional (presence flag + optional block, tag + one of
+    // several members, count + that many members): tie() still lists ALL members (comparison, rendering - a member
+    // that is not on the wire must come back as the default-constructed target left it), while the wire layout and
+    // the generator are the type's own: static T c09_gen(Gen&), void c09_ref(std::string&) const, c09_min_cost
+    template <class T>
+    concept Custom = requires { T::c09_custom; };
 
     // ------------------------------------------------------------ generation
     struct Gen
@@ -57,6 +63,7 @@ namespace c09
         vf::Rng &r;
         long budget; // leaf bytes still available; bounds the total size of one value
         int depth = 0;
+        unsigned alt = 0; // conditional user types alternate "with block" / "without block" along a container
     };
     template <class T> T gen(Gen &g);
     template <class T> void gen_into(Gen &g, T &out) { out = gen<T>(g); }
@@ -76,6 +83,8 @@ namespace c09
             return min_cost<typename T::first_type>() + min_cost<typename T::second_type>();
         else if constexpr (is_tuple<T>::value)
             return tuple_cost<T>(std::make_index_sequence<std::tuple_size_v<T>>{});
+        else if constexpr (Custom<T>)
+            return T::c09_min_cost;
         else
         {
             using Tie = decltype(std::declval<T &>().tie());
@@ -242,6 +251,8 @@ namespace c09
             std::apply([&](auto &...m) { (gen_into(g, m), ...); }, t);
             return t;
         }
+        else if constexpr (Custom<T>)
+            return T::c09_gen(g);
         else
         {
             T s{};
@@ -297,6 +308,8 @@ namespace c09
         }
         else if constexpr (is_tuple<T>::value)
             std::apply([&](const auto &...m) { (ref_enc(m, out), ...); }, v);
+        else if constexpr (Custom<T>)
+            v.c09_ref(out);
         else
             std::apply([&](const auto &...m) { (ref_enc(m, out), ...); }, v.tie());
     }
